@@ -179,6 +179,9 @@ def E_of(I, samples, b):
 
 
 class DetermineBeta(Contract):
+    def must_return(self, shape):
+        return True
+
     qual = f"{M}:SMCSampler.determine_beta"
     properties = ("C06", "C07")
     doc = ("requires 0 <= beta < 1, beta_tolerance > 0, min_step >= 0, samples.beta == beta, valid target; "
@@ -538,6 +541,9 @@ class RestoreFromCheckpointModel(Contract):
 
 
 class Sample(Contract):
+    def must_return(self, shape):
+        return True
+
     qual = f"{M}:SMCSampler.sample"
     properties = ("C06", "C08", "C10", "C12", "C18", "C09")
     raises = {"ValueError": "invalid target_efficiency / neither n_steps nor adaptive / NaN in the initial population"}
@@ -570,6 +576,17 @@ class Sample(Contract):
         s = Obj("SMCSampler", {"xp": Sym(z3.Const("sampler_xp", Misc), "ns"), "dtype": Sym(z3.Const("sampler_dtype", Misc), "dtype"),
                                "rng": Sym(z3.Const("sampler_rng", Misc), "rng"), "sampler_kwargs": PyDict({"n_steps": IV(5)}),
                                "history": NONE, "_adapative_target_efficiency": B(False)})
+        if not shape["resume_from"] and p.choose(2, "sampler-reused") == 1:
+            # the sampler object has been used before: it still carries the history of that earlier call (any lengths, any contents)
+            old = {}
+            for nm in ALL_SERIES:
+                ln = z3.Int(fresh(f"old_len_{nm}"))
+                p.assume(ln >= 0, check=False)
+                old[nm] = SymList(ln, R(z3.Real(fresh(f"old_last_{nm}"))), z3.Real(fresh(f"old_sum_{nm}")), nm)
+            lsh = z3.Int(fresh("old_len_sample_history"))
+            p.assume(lsh >= 0, check=False)
+            old["sample_history"] = SymList(lsh, None, None, "sample_history", elem="pop")
+            s.f["history"] = Obj("SMCHistory", old)
         if shape["te"] == "scalar":
             te = R(z3.Real("target_efficiency"))
         else:
@@ -612,7 +629,9 @@ class Sample(Contract):
                    ("C10 Aligned(samples)", is_aligned(smp)),
                    ("population size unchanged", smp.f["x"].n == I.path.ghost["P0"])]
             for nm in SERIES + MUT_SERIES:
-                out.append((f"C18 len(history.{nm}) == iterations", list_len(h.f[nm]) == it))
+                # C08: the evidence is the sum over *this run's* iterations, so the ratio series must hold exactly one entry per iteration of this run
+                tags = "C18 C08" if nm in ("log_norm_ratio", "log_norm_ratio_var") else "C18"
+                out.append((f"{tags} len(history.{nm}) == iterations", list_len(h.f[nm]) == it))
             lb = list_last(h.f["beta"])
             out.append(("last(history.beta) == beta", z3.Implies(it > 0, to_real(lb) == beta) if lb is not None else it == 0))
             out.append(("iterations == 0 iff beta == 0", (it == 0) == (beta == 0)))
